@@ -31,9 +31,12 @@ or a comment, delivers the maximal runs of non-ignored characters outside commen
 one of `keywords` (on other texts it differs from splitting at whitespace: `ab$c` is `ab`, `$c`); (2) the LALR(1) parser accepts
 exactly the token lists the (unambiguous) grammar derives and builds that derivation; (3) `Transformer.transform` calls the
 callbacks bottom-up, left to right, each with the list of its children's results, anonymous literal tokens filtered out.
-PROVED about `Printer` (Pi2/MM/AstText.lean): the text is lexed to the same tokens as the concatenation of the written strings when
-no line of a written string ends in a character Python's `str.isspace` accepts but the grammar does not ignore — and NOT in
-general: a label like `'\\xa0'` at the start of a line is taken for indentation by `is_line_buffer_empty` and dropped.
+PROVED about `Printer` (Pi2/MM/AstText.lean; the class as repaired by 5aefd01: `is_line_buffer_empty` counts only the characters
+the lexer skips as blank): the text is lexed to the same tokens as the concatenation of the written strings when every line that a
+written string ENDS with a newline (and the very last line) has no trailing character that Python's `str.isspace` accepts but the
+grammar does not ignore (`flush` still `rstrip`s the last string of a line) — which the `Encoder` guarantees for every parsed
+database: it ends lines only by writing `'\\n'` itself.  With the OLD test (`len(s) != 0 and not s.isspace()`) a label like
+`'\\xa0'` at the start of a line was taken for indentation and dropped (`AstText.old_printer_dropped_blank_label`).
 
 Everything that is not recognised is reported as a problem and makes the generated file define `translated := false`."""
 from __future__ import annotations
@@ -1642,7 +1645,7 @@ PRINTER_TEXT = [
                          "self.current_indentation = self.current_indentation[:-len(self.tab)]"),
     ('indentation', 'self', 'self.indent()\nyield\nself.deindent()'),
     ('flush', 'self', 'for i, s in enumerate(self.line_buffer):\n    if i == len(self.line_buffer) - 1:\n        s = s.rstrip()\n    self.output.write(s)\nself.line_buffer = []'),
-    ('is_line_buffer_empty', 'self', 'for s in self.line_buffer:\n    if len(s) != 0 and (not s.isspace()) and (len(self.tab) == 0 or s != len(s) // len(self.tab) * self.tab):\n'
+    ('is_line_buffer_empty', 'self', "for s in self.line_buffer:\n    if s.strip(' \\t\\x0c\\r') != '' and (len(self.tab) == 0 or s != len(s) // len(self.tab) * self.tab):\n"
                                      '        return False\nreturn True'),
     ('write', 'self, msg: str', "for i, line in enumerate(msg.split('\\n')):\n    if i != 0:\n        self.flush()\n        self.output.write('\\n')\n"
                                 "    if self.is_line_buffer_empty():\n        self.line_buffer = [self.current_indentation]\n    self.line_buffer.append(line)"),
